@@ -19,7 +19,7 @@ import warnings
 from fractions import Fraction
 import numpy as np
 import z3
-from ndvc import solve, overlay
+from ndvc import solve, overlay, xcheck
 from ndvc.sym import R, C, real, cplx, lift, CTX, explore, NeedsConcrete, parts
 from ndvc.arr import SymArr, asobj, wrap
 from .common import fd_env, ALL, mods
@@ -90,6 +90,25 @@ class Gen(object):
         return iter(self.steps())
 
 
+def native_limit(method, order, cn, z0n, ratio, K):
+    def run():
+        from numdifftools.limits import Limit
+
+        class G(object):
+            step_ratio = ratio
+
+            def __call__(self, x):
+                return iter([0.25 * (1.0 / ratio) ** k for k in range(K)])
+
+        def fun(w, *a, **k):
+            d = w - z0n
+            return sum(cn[j] * d ** j for j in range(len(cn)))
+        with warnings.catch_warnings():
+            warnings.simplefilter('ignore')
+            return Limit(fun, step=G(), method=method, order=order, full_output=True).limit(z0n, 'A', key='K')[0]
+    return run
+
+
 def run_limit(path, method, ords):
     info = dict(configs=0)
     overlay.PINV_EXACT[0] = True
@@ -147,6 +166,16 @@ def run_limit(path, method, ords):
                     val, inf = paths[0].value
                     H = paths[0].hyps
                     shape = np.shape(z0)
+                    if c0_per_element is None and order <= 4:
+                        # engine cross-check on floats (same stub generator, real numpy / scipy)
+                        asg = {'h0': Fraction(1, 4), 'z0': Fraction(3, 10), 'z0.re': Fraction(3, 10), 'z0.im': Fraction(-2, 5), 'z1.re': Fraction(-6, 5), 'z1.im': Fraction(1, 2)}
+                        cn = [complex(((3 * j + 1) % 7 - 3) / 2.0, ((5 * j) % 4 - 1) / 4.0) for j in range(D + 1)]
+                        for j in range(D + 1):
+                            asg['c%d.re' % j] = Fraction(cn[j].real); asg['c%d.im' % j] = Fraction(cn[j].imag)
+                        z0n = 0.3 if zkind == 'real' else (complex(0.3, -0.4) if zkind == 'complex' else np.array([complex(0.3, -0.4), complex(-1.2, 0.5)]))
+                        ratio_n, qn = RATIOS[path]
+                        ratio_n = complex(1.5, 2.0) if qn is None else ratio_n
+                        xcheck.defer(tag + 'engine==CPython(Limit.limit)', val, asg, native_limit(method, order, cn, z0n, ratio_n, order + 6), rtol=1e-6, atol=1e-8)
                     solve.fact(tag + 'result-shape==shape(z0)', np.shape(val) == shape, note=str(np.shape(val)))
                     rich = L.richardson
                     solve.fact(tag + 'Richardson(step=1,order=1,terms=order+1,generator-ratio)',
@@ -184,6 +213,7 @@ def run_limit(path, method, ords):
                         solve.twin(tag + 'value==c_1', z3.And(*[u == w for u, w in zip(parts(C.lift(lift(asobj(val).ravel()[0]))), parts(cs[1]))]), H)
     finally:
         overlay.PINV_EXACT[0] = False
+    xcheck.flush()
     return info
 
 
